@@ -240,8 +240,128 @@ func VerifC11_Agree() {
 		}
 		vx.Assert("walk-on-gen-agrees-with-get", ok)
 	}
+	// the same tree held in user collections (jp.Keyed / jp.Indexed)
+	if vx.Param("KI", 1) == 1 {
+		kd := wrapKI(mkData(shape))
+		var kg []any
+		var khas bool
+		var kfirst any
+		pan = vx.Catch(func() {
+			kg = x.Get(kd)
+			khas = x.Has(kd)
+			kfirst = x.First(kd)
+		})
+		vx.Assert("no-panic:evaluators(keyed/indexed)", !pan)
+		if !pan {
+			var kvals []any
+			for _, v := range kg {
+				kvals = append(kvals, unwrapKI(v))
+			}
+			// compared as multisets: the collections keep their members in key
+			// order while Go maps have none
+			ok := sameMulti(kvals, got, false)
+			if !ok {
+				vx.Key("slice", sliceCase(rf))
+			}
+			vx.Assert("get-on-keyed-indexed-agrees", ok)
+			vx.Assert("has-on-keyed-indexed-agrees", khas == (len(got) > 0))
+			if len(got) > 0 {
+				vx.Assert("first-on-keyed-indexed-agrees", member(unwrapKI(kfirst), got))
+			}
+		}
+	}
 	vx.Cover("nonempty", len(got) > 0)
 	vx.Cover("empty", len(got) == 0)
+}
+
+// vKeyed / vIndexed: minimal user collections implementing jp.Keyed and
+// jp.Indexed (members kept in sorted key order).
+type vKeyed struct {
+	keys []string
+	vals []any
+}
+
+func (k *vKeyed) ValueForKey(key string) (any, bool) {
+	for i, kk := range k.keys {
+		if kk == key {
+			return k.vals[i], true
+		}
+	}
+	return nil, false
+}
+func (k *vKeyed) SetValueForKey(key string, v any) {
+	for i, kk := range k.keys {
+		if kk == key {
+			k.vals[i] = v
+			return
+		}
+	}
+	k.keys = append(k.keys, key)
+	k.vals = append(k.vals, v)
+}
+func (k *vKeyed) RemoveValueForKey(key string) {
+	for i, kk := range k.keys {
+		if kk == key {
+			k.keys = append(k.keys[:i], k.keys[i+1:]...)
+			k.vals = append(k.vals[:i], k.vals[i+1:]...)
+			return
+		}
+	}
+}
+func (k *vKeyed) Keys() []string { return append([]string{}, k.keys...) }
+
+type vIndexed struct{ vals []any }
+
+func (x *vIndexed) ValueAtIndex(i int) any {
+	if i < 0 || len(x.vals) <= i {
+		return nil
+	}
+	return x.vals[i]
+}
+func (x *vIndexed) SetValueAtIndex(i int, v any) {
+	if 0 <= i && i < len(x.vals) {
+		x.vals[i] = v
+	}
+}
+func (x *vIndexed) Size() int { return len(x.vals) }
+
+func wrapKI(v any) any {
+	switch tv := v.(type) {
+	case []any:
+		x := &vIndexed{}
+		for _, e := range tv {
+			x.vals = append(x.vals, wrapKI(e))
+		}
+		return x
+	case map[string]any:
+		k := &vKeyed{}
+		for _, key := range []string{"a", "b", "c", "x"} { // the keys mkData uses, in order
+			if e, has := tv[key]; has {
+				k.keys = append(k.keys, key)
+				k.vals = append(k.vals, wrapKI(e))
+			}
+		}
+		return k
+	}
+	return v
+}
+
+func unwrapKI(v any) any {
+	switch tv := v.(type) {
+	case *vIndexed:
+		out := make([]any, 0, len(tv.vals))
+		for _, e := range tv.vals {
+			out = append(out, unwrapKI(e))
+		}
+		return out
+	case *vKeyed:
+		out := map[string]any{}
+		for i, k := range tv.keys {
+			out[k] = unwrapKI(tv.vals[i])
+		}
+		return out
+	}
+	return v
 }
 
 func simplifyAny(v any) any {
